@@ -165,7 +165,7 @@ class Bits:
             dtype.set_fn(self, v)
         except ValueError as e:
             raise bitstring.CreationError(e)
-        if length is not None and dtype.bitlength is not None and len(self) != dtype.bitlength:
+        if dtype.bitlength is not None and len(self) != dtype.bitlength:
             raise bitstring.CreationError(f"Can't initialise with value of length {len(self)} bits, "
                                           f"as a length of {dtype.bitlength} bits was requested.")
 
